@@ -38,7 +38,7 @@ class SpecRT:
                      'allocated', 'and_', 'or_', 'not_', 'ite', 'is_dfmt', 'is_dfmt_g', 'str_denotes',
                      'kind_of', 'cls', 'is_val', 'same_ref', 'truthy', 'str_of_int', 'any_int', 'any_str',
                      'any_bool', 'any_none', 'is_any_int', 'any_to_int', 'unchanged', 'log_len', 'logged',
-                     'sv', 'static'}
+                     'sv', 'static', 'has_underscore', 'floor_real', 'to_real'}
 
     def init(self):
         self.ctx = None
